@@ -213,6 +213,9 @@ def run(scn: Dict[str, Any]) -> UdpRun:
                 else:
                     break
             await settle()
+            # an implementation may hand datagrams over through a short timer: give it a virtual second
+            await asyncio.sleep(1.0)
+            await settle()
             out.final_running = bool(bridge.is_running)
             out.final_held = held_ports()
             out.final_callbacks = len(out.callbacks)
